@@ -244,6 +244,15 @@ Theorem C12_reject_unchanged_refuted :
 Proof. exact reject_unchanged_refuted. Qed.
 Print Assumptions C12_reject_unchanged_refuted.
 
+(** "an UPDATE that leaves every key as it is does not touch the children" is false: the ON UPDATE
+    actions fire whenever a primary-key column is assigned (RI itself survives) *)
+Theorem C12_unchanged_key_update_refuted :
+  inv w13_db /\ RI w13_db /\ step_events [0; 1] w13_db w13_stmt = []
+  /\ get_table (step_db [0; 1] w13_db w13_stmt) 0 = get_table w13_db 0
+  /\ get_table (step_db [0; 1] w13_db w13_stmt) 1 <> get_table w13_db 1.
+Proof. exact unchanged_key_update_witness. Qed.
+Print Assumptions C12_unchanged_key_update_refuted.
+
 (** the invariant part "primary keys stay unique" fails on C10's class multirow-update-same-new-key *)
 Theorem C12_keys_unique_refuted :
   exists ord d s, inv d /\ In EvPkCollision (step_events ord d s) /\ ~ keys_unique (step_db ord d s).
